@@ -81,6 +81,13 @@ Theorem restrict_inv : forall env regs st t,
 Proof. exact (restrict_state_inv true). Qed.
 Print Assumptions restrict_inv.
 
+(* what hwloc_topology_restrict (any valid flag combination, by cpuset or by nodeset)
+   does to the root cpuset that [restrict_state] receives: it only shrinks it *)
+Theorem topology_restrict_only_shrinks : forall t set flags t',
+  topology_restrict t set flags = Some t' -> bs_subset (t_cpuset t') (t_cpuset t) = true.
+Proof. exact topology_restrict_shrinks. Qed.
+Print Assumptions topology_restrict_only_shrinks.
+
 (* ---- histories ---- *)
 
 (* no history reaches the stale-slot memory error: the unused slots of the array
